@@ -27,7 +27,7 @@ echo "### demo with patch" >> $log
 mut_fail=$(grep -c "test result: FAILED" $log)
 echo "### existing suite with patch (demo removed)" >> $log
 git apply -R $out/demo.diff
-( cd $wt && timeout 2400 cargo nextest run -p dust_dds --offline --no-fail-fast --test-threads 6 --retries 2 2>&1 | grep -E "^\s+(FAIL|FLAKY)|Summary|tests run" | sort | uniq | tail -60 ) >> $log 2>&1
+( cd $wt && timeout 3000 unshare -n bash -c "ip link set lo up; ip link set lo multicast on; ip route add 224.0.0.0/4 dev lo; cargo test -p dust_dds --offline --no-fail-fast 2>&1" | grep -E "^test result|^test .* FAILED" | sort | uniq -c | sort -rn | head -40 ) >> $log 2>&1
 git checkout -q -- . && git clean -fdq
 echo "RESULT clean_ok=$clean_ok mut_fail=$mut_fail" >> $log
 cp $out/patch.diff $out/demo.diff $out/notes.md $dst/ 2>/dev/null
